@@ -23,8 +23,12 @@ import (
 	"bytes"
 	"context"
 	"crypto"
+	"crypto/ed25519"
+	"crypto/rsa"
+	"crypto/x509"
 	"encoding/base64"
 	"encoding/hex"
+	"encoding/pem"
 	"errors"
 	"fmt"
 	"io"
@@ -219,6 +223,15 @@ func c08Modifier(env *c08Env, algo string, sd c08Sender, hc, bc string, expiry b
 
 // c08ModifierAt: a modify.dkim instance with the given key_path (as it would be written in the configuration)
 func c08ModifierAt(keyPath, algo string, sd c08Sender, hc, bc string, expiry bool, ov, sg []string) (module.Module, error) {
+	arg := ""
+	if !expiry {
+		arg = "0s"
+	}
+	return c08ModifierExp(keyPath, algo, sd, hc, bc, arg, ov, sg)
+}
+
+// c08ModifierExp: sigExpiry is the argument of the sig_expiry directive ("" = directive absent: the default)
+func c08ModifierExp(keyPath, algo string, sd c08Sender, hc, bc string, sigExpiry string, ov, sg []string) (module.Module, error) {
 	mod, err := moddkim.New("modify.dkim", "c08", nil, nil)
 	if err != nil {
 		return nil, err
@@ -231,8 +244,8 @@ func c08ModifierAt(keyPath, algo string, sd c08Sender, hc, bc string, expiry boo
 		{Name: "header_canon", Args: []string{hc}},
 		{Name: "body_canon", Args: []string{bc}},
 	}
-	if !expiry {
-		nodes = append(nodes, config.Node{Name: "sig_expiry", Args: []string{"0s"}})
+	if sigExpiry != "" {
+		nodes = append(nodes, config.Node{Name: "sig_expiry", Args: []string{sigExpiry}})
 	}
 	if sd.subdomains {
 		nodes = append(nodes, config.Node{Name: "sign_subdomains", Args: []string{"yes"}})
@@ -1076,10 +1089,12 @@ func (env *c08Env) prepare(c *c08Case) *c08Pending {
 		out.Violation("C08/non-eai-u-label", op, "non-EAI message signed with non-ASCII d=/s=/i=: "+tags["d"]+" "+tags["s"])
 	}
 	maxLine := sg.maxLine
-	if maxLine > 2000 && c.mode != "m" {
+	if maxLine > 1998 && c.mode != "m" {
 		// Outside the property (the message never arrives): go-msgauth does not fold the h= tag, so a
 		// header with some 130 occurrences of signed fields yields a signature line that a go-smtp
 		// next hop (MaxLineLength 2000; maddy's own endpoint: 4000) refuses.  Recorded, not transported.
+		// (go-smtp's lineLimitReader counts the LF that ends the previous line and the CR of this one:
+		// a line of 1999 or 2000 octets is refused as well - found in round 6, seed 3.)
 		out.Stat("chain.skipped.sig-line>2000")
 		out.Note(fmt.Sprintf("signature line of %d octets (h= with %d names) would be refused by the scripted next hop", maxLine, len(hkeys)))
 		return nil
@@ -2024,9 +2039,14 @@ func c08RawData(port string, srv *vsmtp.Server, wire []byte) ([]byte, error) {
 //	              way the documentation defines the placeholders (domain and selector as written in the
 //	              configuration): the key an existing installation has
 //
-// a = r (newkey_algo rsa2048) | e (ed25519).
+//	X<a><i>       (round 6) a private key of type a is put where domain i's key belongs (documented name) by the
+//	              administrator - copied from another server, made with openssl -: NO record file comes with it
+//	D<i>          (round 6) the record file next to domain i's key (documented name) is deleted
+//
+// a = r (newkey_algo rsa2048 / an RSA key) | e (ed25519).
 type c08KeyStep struct {
 	lit  bool
+	kind byte   // 0 (= 'I' or 'L' according to lit) | 'X' | 'D'
 	algo string // rsa2048 | ed25519
 	idx  []int
 }
@@ -2052,6 +2072,13 @@ func (k *c08KeyCase) op() string {
 		if s.lit {
 			t = "L"
 		}
+		switch s.kind {
+		case 'X':
+			t = "X"
+		case 'D':
+			st = append(st, "D"+strings.Join(ix, "."))
+			continue
+		}
 		st = append(st, t+s.algo[:1]+strings.Join(ix, "."))
 	}
 	return fmt.Sprintf("C08 keys %s %s | %s | %s", vh.HexBytes([]byte(k.tmpl)), vh.HexBytes([]byte(k.sel)), strings.Join(ds, " "), strings.Join(st, " "))
@@ -2071,16 +2098,30 @@ func c08ParseKeyCase(op string) (*c08KeyCase, error) {
 		k.doms = append(k.doms, string(vh.UnhexBytes(strings.SplitN(d, "=", 2)[0])))
 	}
 	for _, s := range strings.Fields(g[2]) {
-		if len(s) < 3 || !strings.Contains("LI", s[:1]) || !strings.Contains("re", s[1:2]) {
+		if len(s) >= 2 && s[0] == 'D' {
+			n, err := strconv.Atoi(s[1:])
+			if err != nil || n < 0 || n >= len(k.doms) {
+				return nil, errors.New("bad keys step " + s)
+			}
+			k.steps = append(k.steps, c08KeyStep{kind: 'D', algo: "ed25519", idx: []int{n}})
+			continue
+		}
+		if len(s) < 3 || !strings.Contains("LIX", s[:1]) || !strings.Contains("re", s[1:2]) {
 			return nil, errors.New("bad keys step " + s)
 		}
 		st := c08KeyStep{lit: s[0] == 'L', algo: map[byte]string{'r': "rsa2048", 'e': "ed25519"}[s[1]]}
+		if s[0] == 'X' {
+			st.kind = 'X'
+		}
 		for _, i := range strings.Split(s[2:], ".") {
 			n, err := strconv.Atoi(i)
 			if err != nil || n < 0 || n >= len(k.doms) {
 				return nil, errors.New("bad keys step " + s)
 			}
 			st.idx = append(st.idx, n)
+		}
+		if (st.lit || st.kind == 'X') && len(st.idx) != 1 {
+			return nil, errors.New("bad keys step " + s)
 		}
 		k.steps = append(k.steps, st)
 	}
@@ -2130,7 +2171,44 @@ func c08GenKeyCase(r *vh.Rng) *c08KeyCase {
 		}
 		return ix
 	}
-	switch r.Intn(5) {
+	other := func(a string) string { return map[string]string{"rsa2048": "ed25519", "ed25519": "rsa2048"}[a] }
+	pat := r.Intn(8)
+	switch pat {
+	case 5, 6:
+		// (round 6) keys put there by the administrator, without record files, of either type (an imported RSA key costs
+		// nothing: it is one of the keys of the run); newkey_algo of the start differs from the key type more often than not
+		ka := make([]string, n)
+		for i := 0; i < n; i++ {
+			ka[i] = r.Pick("rsa2048", "ed25519")
+			if n == 1 || !r.Chance(20) {
+				k.steps = append(k.steps, c08KeyStep{kind: 'X', algo: ka[i], idx: []int{i}})
+			}
+		}
+		a := other(ka[r.Intn(n)])
+		if r.Chance(25) || (a == "rsa2048" && rsaLeft == 0 && len(k.steps) < n) {
+			a = "ed25519"
+		}
+		k.steps = append(k.steps, c08KeyStep{algo: a, idx: all()})
+	case 7:
+		// (round 6) an installation whose record files were deleted (some or all), restarted under the other newkey_algo
+		a := algo()
+		if r.Chance(50) {
+			k.steps = append(k.steps, c08KeyStep{algo: a, idx: all()})
+		} else {
+			for i := 0; i < n; i++ {
+				k.steps = append(k.steps, c08KeyStep{lit: true, algo: a, idx: []int{i}})
+				a = "ed25519"
+			}
+		}
+		del := 0
+		for i := 0; i < n; i++ {
+			if r.Chance(70) || (i == n-1 && del == 0) {
+				k.steps = append(k.steps, c08KeyStep{kind: 'D', algo: "ed25519", idx: []int{i}})
+				del++
+			}
+		}
+		// nothing is generated by this start (every domain has its key): rsa2048 costs nothing
+		k.steps = append(k.steps, c08KeyStep{algo: r.Pick("rsa2048", "ed25519"), idx: all()})
 	case 0, 1:
 		// an existing installation (keys under their documented names), then the server is started
 		for i := 0; i < n; i++ {
@@ -2212,6 +2290,8 @@ func (env *c08Env) runKeys(k *c08KeyCase) {
 	firstPub := map[string]crypto.PublicKey{} // normalised domain -> the key the first instance configured with it signed with
 	firstRec := map[string]string{}           // c08Norm(selector, domain) -> the record published for that key
 	createdIn := map[string]string{}          // public key -> file it was first seen in as a private key
+	adminRec := map[string]string{}           // public key of an imported key -> the record its owner derives from it
+	importedAt := map[string]bool{}           // documented key paths at which a key was imported
 	before, _ := vc08.ScanKeyDir(dir)
 	var obs []string
 
@@ -2219,6 +2299,52 @@ func (env *c08Env) runKeys(k *c08KeyCase) {
 		var doms []string
 		for _, i := range st.idx {
 			doms = append(doms, k.doms[i])
+		}
+		if st.kind == 'X' || st.kind == 'D' {
+			// the administrator's doing, not maddy's: the documented names (the monitor's own expansion)
+			keyRel := vc08.ExpandKeyPath(k.tmpl, doms[0], k.sel)
+			switch st.kind {
+			case 'X':
+				out.Stat("keys.step.import." + st.algo)
+				full := filepath.Join(dir, filepath.FromSlash(keyRel))
+				if _, err := os.Lstat(full); err == nil {
+					obs = append(obs, "imp=-")
+					out.Stat("keys.step.import.exists")
+					break
+				}
+				pemBytes, pub, form, err := env.importedKey(r, st.algo, st.idx[0]+int(seed%1000))
+				if err != nil {
+					env.t.Fatal(err)
+				}
+				out.Stat("keys.step.import.form." + form)
+				if err := os.MkdirAll(filepath.Dir(full), 0o777); err != nil {
+					env.t.Fatal(err)
+				}
+				if err := os.WriteFile(full, pemBytes, 0o600); err != nil {
+					env.t.Fatal(err)
+				}
+				createdIn[c08PubID(pub)] = keyRel
+				adminRec[c08PubID(pub)] = vc08.FormatRecord(pub)
+				importedAt[keyRel] = true
+				obs = append(obs, "imp="+vh.HexBytes([]byte(keyRel)))
+			case 'D':
+				recRel := vc08.RecordPath(keyRel)
+				if f, ok := before[recRel]; ok && (f.Kind == "r" || bytes.HasPrefix(f.Content, []byte("v=DKIM1"))) {
+					if err := os.Remove(filepath.Join(dir, filepath.FromSlash(recRel))); err != nil {
+						env.t.Fatal(err)
+					}
+					obs = append(obs, "del="+vh.HexBytes([]byte(recRel)))
+					out.Stat("keys.step.record-deleted")
+				} else {
+					obs = append(obs, "del=-")
+					out.Stat("keys.step.record-deleted.none")
+				}
+			}
+			var err error
+			if before, err = vc08.ScanKeyDir(dir); err != nil {
+				env.t.Fatal(err)
+			}
+			continue
 		}
 		tmpl := k.tmpl
 		kind := "template"
@@ -2268,7 +2394,7 @@ func (env *c08Env) runKeys(k *c08KeyCase) {
 		// Init never creates a second key for a (domain, selector) that has one
 		fresh := 0
 		for _, i := range st.idx {
-			if firstPub[norm[i]] == nil {
+			if firstPub[norm[i]] == nil && !importedAt[vc08.ExpandKeyPath(k.tmpl, k.doms[i], k.sel)] {
 				fresh++
 			}
 		}
@@ -2310,7 +2436,11 @@ func (env *c08Env) runKeys(k *c08KeyCase) {
 						rec = string(kf.Content)
 					}
 				}
-				if rec == "" {
+				if ar, imported := adminRec[c08PubID(pub)]; imported {
+					// a key that came without a record: its owner publishes the record derived from the key
+					rec = ar
+					out.Stat("keys.first-record.from-imported-key")
+				} else if rec == "" {
 					out.Violation("C08/key-record-not-written", op, where+": no record file carries the key generated for "+d)
 				}
 				firstRec[c08Norm(k.sel, d)] = rec
@@ -2318,9 +2448,26 @@ func (env *c08Env) runKeys(k *c08KeyCase) {
 		}
 		obs = append(obs, "ok new="+c08JoinOr(created, "-")+" use="+c08JoinOr(use, "-"))
 
-		// the property itself: what this instance signs verifies against the record published FIRST
+		// the property itself: what this instance signs verifies against the record published FIRST and against
+		// every record file maddy wrote for, or left next to, the key it signs with (round 6)
 		for _, i := range st.idx {
-			env.keySignVerify(r, op, where, mod, k, k.doms[i], firstRec)
+			pub := signers[norm[i]]
+			var written []c08Record
+			if pub != nil {
+				written = c08RecordsOf(after, pub)
+				for _, w := range written {
+					_, isNew := before[w.rel]
+					isNew = !isNew
+					out.Stat(map[bool]string{true: "keys.record.written-in-this-step", false: "keys.record.left"}[isNew])
+					if w.problem != "" {
+						out.Violation("C08/key-record-wrong", op, fmt.Sprintf("%s: record file %q for the key that signs for %s (%s key): %s; content %.60q", where, w.rel, k.doms[i], c08PubAlgo(pub), w.problem, w.content))
+					}
+				}
+				if len(written) == 0 {
+					out.Stat("keys.record.none-for-signing-key")
+				}
+			}
+			env.keySignVerify(r, op, where, mod, k, k.doms[i], firstRec, written)
 		}
 		before = after
 	}
@@ -2359,7 +2506,7 @@ func c08InitErrClass(err error) string {
 
 // keySignVerify signs one or two messages sent from the domain (spelled as an EAI and as a non-EAI
 // sender would) and verifies them with go-msgauth and check.dkim against the records published first.
-func (env *c08Env) keySignVerify(r *vh.Rng, op, where string, mod module.Module, k *c08KeyCase, dom string, firstRec map[string]string) {
+func (env *c08Env) keySignVerify(r *vh.Rng, op, where string, mod module.Module, k *c08KeyCase, dom string, firstRec map[string]string, written []c08Record) {
 	out := env.out
 	nd, _ := dns.ForLookup(dom)
 	a, aerr := idna.ToASCII(nd)
@@ -2455,7 +2602,147 @@ func (env *c08Env) keySignVerify(r *vh.Rng, op, where string, mod module.Module,
 		if !pass {
 			out.Violation("C08/maddy-check-fails-published-key", op, detail+": check.dkim: "+strings.Join(vals, ","))
 		}
+		// (round 6) … and against every record file of the signing key in the directory, whoever published which
+		published := firstRec[c08Norm(k.sel, dom)]
+		for _, w := range written {
+			if w.content == published {
+				continue
+			}
+			out.Stat("keys.verify.other-record")
+			one := func(string) ([]string, error) { return []string{w.content}, nil }
+			wd := fmt.Sprintf("%s: with the record file %q (%.50q…)", detail, w.rel, w.content)
+			vs, err := msgdkim.VerifyWithOptions(bytes.NewReader(msg.Bytes()), &msgdkim.VerifyOptions{LookupTXT: one})
+			switch {
+			case err != nil:
+				out.Violation("C08/verify-fails-written-record", op, wd+": go-msgauth: "+err.Error())
+			case len(vs) != 1:
+				out.Violation("C08/verify-fails-written-record", op, fmt.Sprintf("%s: go-msgauth sees %d signatures", wd, len(vs)))
+			case vs[0].Err != nil:
+				out.Violation("C08/verify-fails-written-record", op, fmt.Sprintf("%s: go-msgauth: %v", wd, vs[0].Err))
+			}
+			chk, err := checkdkim.C08NewCheck(c08Resolver{&mockdns.Resolver{}, one})
+			if err != nil {
+				env.t.Fatal(err)
+			}
+			cst, err := chk.CheckStateForMsg(ctx, &module.MsgMetadata{ID: "c08kw"})
+			if err != nil {
+				env.t.Fatal(err)
+			}
+			pass, vals := false, []string(nil)
+			for _, ar := range cst.CheckBody(ctx, hdr, buffer.MemoryBuffer{Slice: body}).AuthResult {
+				if dr, ok := ar.(*authres.DKIMResult); ok {
+					pass = pass || dr.Value == authres.ResultPass
+					vals = append(vals, string(dr.Value)+"("+dr.Reason+")")
+				}
+			}
+			if !pass {
+				out.Violation("C08/maddy-check-fails-written-record", op, wd+": check.dkim: "+strings.Join(vals, ","))
+			}
+		}
 	}
+}
+
+// ---- (round 6) record files of a key, imported keys
+
+// c08Record: a file of the key directory that is (or is meant to be) the TXT record of a given key
+type c08Record struct {
+	rel     string
+	content string
+	problem string // "" = a well-formed record of exactly that key
+}
+
+func c08PubAlgo(p crypto.PublicKey) string {
+	if strings.Contains(fmt.Sprintf("%T", p), "rsa") {
+		return "rsa"
+	}
+	return "ed25519"
+}
+
+// c08RecordsOf finds the record files that belong to the key pub in a scanned key directory, by CONTENT (a
+// well-formed record of that key; anything starting with v=DKIM1 whose p= tag holds that key in any encoding) and by
+// POSITION (the documented name next to a private-key file holding that key), and says what is wrong with each.
+func c08RecordsOf(files map[string]vc08.KeyFile, pub crypto.PublicKey) []c08Record {
+	cand := map[string]bool{}
+	for rel, f := range files {
+		switch {
+		case f.Kind == "r" && vc08.SamePublic(f.Pub, pub):
+			cand[rel] = true
+		case f.Kind == "k" && vc08.SamePublic(f.Pub, pub):
+			if _, ok := files[vc08.RecordPath(rel)]; ok {
+				cand[vc08.RecordPath(rel)] = true
+			}
+		case f.Kind != "k" && bytes.HasPrefix(f.Content, []byte("v=DKIM1")) && vc08.RecordCarries(string(f.Content), pub):
+			cand[rel] = true
+		}
+	}
+	var rels []string
+	for rel := range cand {
+		rels = append(rels, rel)
+	}
+	vcSort(rels)
+	var out []c08Record
+	for _, rel := range rels {
+		f := files[rel]
+		rec := c08Record{rel: rel, content: string(f.Content)}
+		p, kind, err := vc08.ParseRecord(string(f.Content))
+		switch {
+		case f.Kind == "k":
+			continue // templates under which one key's record name is another key's name are not generated
+		case err != nil:
+			rec.problem = "not a usable DKIM key record (" + err.Error() + ")"
+		case !vc08.SamePublic(p, pub):
+			rec.problem = "carries another key"
+		case kind != c08PubAlgo(pub):
+			rec.problem = "k=" + kind
+		}
+		out = append(out, rec)
+	}
+	return out
+}
+
+// importedKey: a private key as an administrator would bring it along - for RSA one of the keys of the run
+// (generated by maddy in another directory = "copied from another server"), in PKCS#8 or re-encoded as PKCS#1
+// (openssl genrsa); for Ed25519 a key of the harness's own making (PKCS#8, openssl genpkey).
+func (env *c08Env) importedKey(r *vh.Rng, algo string, i int) ([]byte, crypto.PublicKey, string, error) {
+	if i < 0 {
+		i = -i
+	}
+	if algo == "ed25519" {
+		seed := make([]byte, ed25519.SeedSize)
+		for j := range seed {
+			seed[j] = byte(r.Intn(256))
+		}
+		priv := ed25519.NewKeyFromSeed(seed)
+		der, err := x509.MarshalPKCS8PrivateKey(priv)
+		if err != nil {
+			return nil, nil, "", err
+		}
+		return pem.EncodeToMemory(&pem.Block{Type: "PRIVATE KEY", Bytes: der}), priv.Public(), "pkcs8", nil
+	}
+	files, err := vc08.ScanKeyDir(env.keyDir["rsa2048"])
+	if err != nil {
+		return nil, nil, "", err
+	}
+	var rels []string
+	for rel, f := range files {
+		if f.Kind == "k" && f.Algo == "rsa" {
+			rels = append(rels, rel)
+		}
+	}
+	if len(rels) == 0 {
+		return nil, nil, "", errors.New("no RSA key among the keys of the run")
+	}
+	vcSort(rels)
+	f := files[rels[i%len(rels)]] // i = domain index + an offset of the case: no key twice in a case
+	if r.Chance(40) {
+		blk, _ := pem.Decode(f.Content)
+		key, err := x509.ParsePKCS8PrivateKey(blk.Bytes)
+		if err != nil {
+			return nil, nil, "", err
+		}
+		return pem.EncodeToMemory(&pem.Block{Type: "RSA PRIVATE KEY", Bytes: x509.MarshalPKCS1PrivateKey(key.(*rsa.PrivateKey))}), f.Pub, "pkcs1", nil
+	}
+	return f.Content, f.Pub, "pkcs8", nil
 }
 
 func c08SigTag(h textproto.Header, tag string) string {
@@ -2501,7 +2788,374 @@ func TestVerifC08Keys(t *testing.T) {
 			{algo: b, idx: []int{0, 1}}, {algo: "ed25519", idx: []int{1, 0}}}
 		env.runKeys(k)
 	}
+	// (round 6) every run: keys that exist WITHOUT their record file - brought along by the administrator (an Ed25519 and
+	// an RSA one), or generated by maddy and the record deleted since - started under the newkey_algo that is NOT their type
+	I := func(a string, ix ...int) c08KeyStep { return c08KeyStep{algo: a, idx: ix} }
+	X := func(a string, i int) c08KeyStep { return c08KeyStep{kind: 'X', algo: a, idx: []int{i}} }
+	D := func(i int) c08KeyStep { return c08KeyStep{kind: 'D', algo: "ed25519", idx: []int{i}} }
+	L := func(a string, i int) c08KeyStep { return c08KeyStep{lit: true, algo: a, idx: []int{i}} }
+	for _, k := range []*c08KeyCase{
+		{tmpl: "{domain}_{selector}.key", sel: "sel", doms: []string{"example.org", "пример.example"},
+			steps: []c08KeyStep{X("ed25519", 0), X("rsa2048", 1), I("ed25519", 1), I("rsa2048", 0), I("rsa2048", 0, 1), I("ed25519", 1, 0)}},
+		{tmpl: "{selector}/{domain}.pem", sel: "S2024", doms: []string{"bücher.example", "Mail.Example.COM"},
+			steps: []c08KeyStep{L("ed25519", 0), L("ed25519", 1), D(0), I("rsa2048", 0, 1), D(1), D(0), I("rsa2048", 1, 0), I("ed25519", 0, 1)}},
+		{tmpl: "{domain}.key", sel: "ключ", doms: []string{"xn--bcher-kva.example"},
+			steps: []c08KeyStep{X("rsa2048", 0), I("ed25519", 0), D(0), I("ed25519", 0), I("rsa2048", 0)}},
+	} {
+		env.runKeys(k)
+	}
 	for i := 0; i < n; i++ {
 		env.runKeys(c08GenKeyCase(r))
+	}
+}
+
+// ---------------------------------------------------------------- time as an input (round 6)
+//
+// A case is the life of ONE modify.dkim instance on a clock the harness moves by hand (checks/c08.py routes
+// time.Now of internal/modify/dkim and go-msgauth's `now` to vc08.Now):
+//
+//	C08 clock <t0> <sig_expiry> <algo> <hc> <bc> <sender#> | <up>:<gap>:<d>,<d>… … | <fields> | <body>
+//
+// Init() at t0 (ms since the epoch); per message: the clock advances by `up` ms (uptime since Init / since the last
+// message), ModStateForMsg, `gap` ms later RewriteBody signs (instant S); the signed message is verified
+// (go-msgauth, check.dkim) at S+d for every transit delay d.  sig_expiry in ms, 0 = signatures never expire,
+// "default" = the directive is absent.  Monitor: a message verified within sig_expiry (less the one second DKIM
+// time stamps cannot express) of its SIGNING verifies, whatever the uptime.  Compared with the model: t=, x= and
+// the verifier's "expired" verdict per instant.
+//
+// The test does not call t.Parallel: it is the only one running while the clock is not the wall clock.
+
+const c08DefaultExpiryMs = 5 * 24 * 3600 * 1000
+
+type c08ClockMsg struct {
+	up, gap int64
+	delays  []int64
+}
+
+type c08ClockCase struct {
+	t0     int64
+	expiry int64 // ms; -1 = directive absent
+	algo   string
+	hc, bc string
+	sender int
+	msgs   []c08ClockMsg
+	fields [][]byte
+	body   []byte
+}
+
+func (c *c08ClockCase) op() string {
+	e := "default"
+	if c.expiry >= 0 {
+		e = strconv.FormatInt(c.expiry, 10)
+	}
+	var ms []string
+	for _, m := range c.msgs {
+		var ds []string
+		for _, d := range m.delays {
+			ds = append(ds, strconv.FormatInt(d, 10))
+		}
+		ms = append(ms, fmt.Sprintf("%d:%d:%s", m.up, m.gap, strings.Join(ds, ",")))
+	}
+	return fmt.Sprintf("C08 clock %d %s %s %s %s %d | %s | %s | %s", c.t0, e, c.algo, c.hc, c.bc, c.sender, strings.Join(ms, " "), vc08.EncList(c.fields), vc08.Enc(c.body))
+}
+
+func c08ParseClockCase(op string) (*c08ClockCase, error) {
+	g := strings.Split(op, " | ")
+	if len(g) != 4 {
+		return nil, errors.New("bad clock op")
+	}
+	h := strings.Fields(g[0])
+	if len(h) != 8 || h[0] != "C08" || h[1] != "clock" {
+		return nil, errors.New("bad clock op head")
+	}
+	c := &c08ClockCase{algo: h[4], hc: h[5], bc: h[6], expiry: -1}
+	var err error
+	if c.t0, err = strconv.ParseInt(h[2], 10, 64); err != nil || c.t0 < 0 {
+		return nil, errors.New("bad clock t0")
+	}
+	if h[3] != "default" {
+		if c.expiry, err = strconv.ParseInt(h[3], 10, 64); err != nil || c.expiry < 0 {
+			return nil, errors.New("bad clock expiry")
+		}
+	}
+	if c.sender, err = strconv.Atoi(h[7]); err != nil || c.sender < 0 || c.sender >= len(c08Senders()) {
+		return nil, errors.New("bad clock sender")
+	}
+	for _, m := range strings.Fields(g[1]) {
+		p := strings.Split(m, ":")
+		if len(p) != 3 {
+			return nil, errors.New("bad clock message " + m)
+		}
+		var cm c08ClockMsg
+		var e1, e2 error
+		cm.up, e1 = strconv.ParseInt(p[0], 10, 64)
+		cm.gap, e2 = strconv.ParseInt(p[1], 10, 64)
+		if e1 != nil || e2 != nil || cm.up < 0 || cm.gap < 0 {
+			return nil, errors.New("bad clock message " + m)
+		}
+		for _, d := range strings.Split(p[2], ",") {
+			v, err := strconv.ParseInt(d, 10, 64)
+			if err != nil || v < 0 {
+				return nil, errors.New("bad clock delay " + m)
+			}
+			cm.delays = append(cm.delays, v)
+		}
+		c.msgs = append(c.msgs, cm)
+	}
+	for _, f := range strings.Fields(g[2]) {
+		c.fields = append(c.fields, vc08.Dec(f))
+	}
+	c.body = vc08.Dec(strings.TrimSpace(g[3]))
+	return c, nil
+}
+
+var c08ClockExpiries = []int64{-1, -1, -1, 0, 1000, 2000, 1500, 90_000, 3_600_000, 86_400_000, 7 * 86_400_000, 30 * 86_400_000, 2_750}
+
+func c08Rand64(r *vh.Rng, n int64) int64 {
+	if n <= 0 {
+		return 0
+	}
+	return int64(r.Next() % uint64(n))
+}
+
+func c08GenClockCase(r *vh.Rng) *c08ClockCase {
+	c := &c08ClockCase{algo: r.Pick("rsa2048", "ed25519", "ed25519"), hc: r.Pick("relaxed", "simple"), bc: r.Pick("relaxed", "simple"), sender: r.Intn(len(c08Senders()))}
+	c.expiry = c08ClockExpiries[r.Intn(len(c08ClockExpiries))]
+	e := c.expiry
+	if e < 0 {
+		e = c08DefaultExpiryMs
+	}
+	// start-up somewhere between 2020 and 2033, now and then just before 2^31 seconds
+	c.t0 = 1_577_836_800_000 + c08Rand64(r, 410_000_000_000)
+	if r.Chance(8) {
+		c.t0 = (int64(1)<<31)*1000 - c08Rand64(r, 3*e+5000)
+	}
+	if r.Chance(30) {
+		c.t0 -= c.t0 % 1000 // on a full second
+	}
+	ref := e
+	if ref == 0 {
+		ref = 86_400_000
+	}
+	for i := 0; i < 1+r.Intn(3); i++ {
+		var m c08ClockMsg
+		switch r.Intn(12) {
+		case 0: // signed right after Init (what every other test does)
+		case 1:
+			m.up = 1 + c08Rand64(r, 999)
+		case 2:
+			m.up = ref / 2
+		case 3:
+			m.up = ref - 1 - c08Rand64(r, 1000)
+		case 4:
+			m.up = ref
+		case 5:
+			m.up = ref + 1 + c08Rand64(r, 2000)
+		case 6:
+			m.up = 2*ref + c08Rand64(r, ref)
+		case 7:
+			m.up = 10*ref + c08Rand64(r, 1000)
+		case 8:
+			m.up = 400 * 86_400_000
+		case 9:
+			m.up = 3*365*86_400_000 + c08Rand64(r, 86_400_000)
+		default:
+			m.up = c08Rand64(r, 3*ref)
+		}
+		if r.Chance(30) {
+			m.gap = 1 + c08Rand64(r, 5000)
+		}
+		m.delays = []int64{0}
+		if e == 0 {
+			m.delays = append(m.delays, c08Rand64(r, 86_400_000), 20*365*86_400_000)
+		} else {
+			if e >= 1000 {
+				m.delays = append(m.delays, e-1000) // the last instant at which every verifier must still accept
+				if e > 1000 && r.Chance(50) {
+					m.delays = append(m.delays, c08Rand64(r, e-1000))
+				}
+			}
+			switch r.Intn(4) {
+			case 0: // inside the second the time stamps cannot express: the model decides
+				m.delays = append(m.delays, e-c08Rand64(r, 1000))
+			case 1:
+				m.delays = append(m.delays, e+1+c08Rand64(r, 1000))
+			case 2:
+				m.delays = append(m.delays, 2*e+c08Rand64(r, 100_000))
+			}
+		}
+		c.msgs = append(c.msgs, m)
+	}
+	c.fields, c.body = c08KeyMessage(r, c08Senders()[c.sender].utf8)
+	return c
+}
+
+func (env *c08Env) runClock(c *c08ClockCase) {
+	out := env.out
+	op := c.op()
+	sd := c08Senders()[c.sender]
+	ctx := context.Background()
+	e := c.expiry
+	arg := ""
+	switch {
+	case e < 0:
+		e = c08DefaultExpiryMs
+		out.Stat("clock.expiry.default")
+	case e == 0:
+		arg = "0s"
+		out.Stat("clock.expiry.none")
+	default:
+		arg = fmt.Sprintf("%dms", e)
+		switch {
+		case e < 60_000:
+			out.Stat("clock.expiry.seconds")
+		case e < 86_400_000:
+			out.Stat("clock.expiry.hours")
+		default:
+			out.Stat("clock.expiry.days")
+		}
+	}
+	now := c.t0
+	vc08.SetClockMs(now)
+	defer vc08.WallClock()
+	mod, err := c08ModifierExp(filepath.Join(env.keyDir[c.algo], "{domain}_{selector}.key"), c.algo, sd, c.hc, c.bc, arg, nil, nil)
+	if err != nil {
+		out.Violation("C08/key-init-fails", op, err.Error())
+		return
+	}
+	out.Stat(fmt.Sprintf("clock.messages.%d", len(c.msgs)))
+	var obs []string
+	for mi, m := range c.msgs {
+		hdr, err := textproto.ReadHeader(bufio.NewReader(bytes.NewReader(vc08.Join(c.fields, nil))))
+		if err != nil {
+			out.Stat("clock.gen-refused")
+			return
+		}
+		now += m.up
+		vc08.SetClockMs(now)
+		st, err := mod.(module.Modifier).ModStateForMsg(ctx, &module.MsgMetadata{ID: "c08t", SMTPOpts: smtp.MailOptions{UTF8: sd.utf8}})
+		if err != nil {
+			env.t.Fatal(err)
+		}
+		st.RewriteSender(ctx, sd.from)
+		now += m.gap
+		vc08.SetClockMs(now)
+		signAt := now
+		uptime := signAt - c.t0
+		switch {
+		case uptime == 0:
+			out.Stat("clock.uptime.0")
+		case e == 0:
+			out.Stat("clock.uptime.any(no-expiry)")
+		case uptime < e:
+			out.Stat("clock.uptime.<sig_expiry")
+		case uptime < 2*e:
+			out.Stat("clock.uptime.1-2x-sig_expiry")
+		default:
+			out.Stat("clock.uptime.>=2x-sig_expiry")
+		}
+		nBefore := hdr.Len()
+		if err := st.RewriteBody(ctx, &hdr, buffer.MemoryBuffer{Slice: c.body}); err != nil {
+			out.Stat("clock.sign.error:" + c08ErrClass(err))
+			obs = append(obs, "unsigned")
+			continue
+		}
+		where := fmt.Sprintf("message %d signed %d ms after Init (sig_expiry %d ms)", mi+1, uptime, e)
+		if hdr.Len() != nBefore+1 {
+			out.Violation("C08/not-signed", op, where+": the modifier returned no error and added no signature")
+			obs = append(obs, "unsigned")
+			continue
+		}
+		raw, _ := c08RawFields(hdr)
+		tags := vc08.Tags(raw[0])
+		tT, tX := tags["t"], tags["x"]
+		if tT == "" {
+			tT = "-"
+		}
+		if tX == "" {
+			tX = "-"
+		}
+		var msg bytes.Buffer
+		textproto.WriteHeader(&msg, hdr)
+		msg.Write(c.body)
+		exp := ""
+		for _, d := range m.delays {
+			vc08.SetClockMs(signAt + d)
+			within := e == 0 || d+1000 <= e
+			if within {
+				out.Stat("clock.verify.within-expiry")
+			} else {
+				out.Stat("clock.verify.beyond")
+			}
+			at := fmt.Sprintf("%s, verified %d ms after signing (t=%s x=%s, signed at %d, verified at %d)", where, d, tT, tX, signAt/1000, (signAt+d)/1000)
+			vs, verr := msgdkim.VerifyWithOptions(bytes.NewReader(msg.Bytes()), &msgdkim.VerifyOptions{LookupTXT: env.lookupTXT(c.algo)})
+			bit, why := "0", ""
+			switch {
+			case verr != nil:
+				why = verr.Error()
+			case len(vs) != 1:
+				why = fmt.Sprintf("%d signatures", len(vs))
+			case vs[0].Err != nil:
+				why = vs[0].Err.Error()
+				if strings.Contains(why, "signature has expired") {
+					bit = "1"
+				}
+			}
+			exp += bit
+			if within && why != "" {
+				out.Violation("C08/verify-fails-within-expiry", op, at+": go-msgauth: "+why)
+			}
+			if within {
+				if pass, detail := env.maddyCheck(c.algo, msg.Bytes()); !pass {
+					out.Violation("C08/maddy-check-fails-within-expiry", op, at+": "+detail)
+				}
+			} else if why != "" && bit == "0" {
+				// beyond the expiry nothing but "expired" may go wrong either
+				out.Violation("C08/verify-fails", op, at+": go-msgauth: "+why)
+			}
+			if bit == "1" {
+				out.Stat("clock.verdict.expired")
+			} else {
+				out.Stat("clock.verdict.not-expired")
+			}
+		}
+		vc08.SetClockMs(signAt)
+		obs = append(obs, fmt.Sprintf("t=%s x=%s exp=%s", tT, tX, exp))
+	}
+	out.Corr(op, strings.Join(obs, " ; "))
+}
+
+func TestVerifC08Clock(t *testing.T) {
+	// NOT parallel (see above)
+	out := vh.Open("c08_clock")
+	defer out.Close()
+	env := c08NewEnv(t, out, false)
+	msgdkim.C08SetNow(vc08.Now)
+	defer vc08.WallClock()
+	if c08Replay(t, "C08 clock ", func(op string) {
+		c, err := c08ParseClockCase(op)
+		if err != nil {
+			t.Fatal(err)
+		}
+		env.runClock(c)
+	}) {
+		return
+	}
+	r := vh.NewRng(vh.Seed() + 807)
+	n := vh.N(600)/5 + 4
+	// every run: the default sig_expiry and a short one, each signed right after Init, after more than sig_expiry of
+	// uptime and long after, by the same instance
+	for _, e := range []int64{-1, 2000, 3_600_000} {
+		ee := e
+		if ee < 0 {
+			ee = c08DefaultExpiryMs
+		}
+		c := c08GenClockCase(r)
+		c.expiry = e
+		c.msgs = []c08ClockMsg{{up: 0, delays: []int64{0, ee - 1000}}, {up: ee + 1000, delays: []int64{0, ee - 1000, ee + 1000}}, {up: 30 * ee, gap: 250, delays: []int64{0, ee / 2}}}
+		env.runClock(c)
+	}
+	for i := 0; i < n; i++ {
+		env.runClock(c08GenClockCase(r))
 	}
 }
